@@ -9,6 +9,7 @@ import re
 import socket
 
 from . import pyextract as px
+from . import c09
 from .c09 import T2, _Holes, find_method, strip_doc
 from .vlib import COQ, Check, ImplTimeout, cps, hexs, with_timeout
 
@@ -79,6 +80,146 @@ class T2x(T2):
         return super().expr(n)
 
 
+class T3:
+    """Translation of straight-line string code with if / continue / local assignment / dict item assignment into
+    nested Gallina lets over the variables it assigns (make_environ's header loop and its neighbours).  Fail closed."""
+
+    def __init__(self, name, vars_, atoms=None, state="environ"):
+        self.name = name
+        self.vars = set(vars_)        # names usable as str variables
+        self.atoms = atoms or {}      # unparse text -> (type, coq)
+        self.state = state
+        self.sub = {}                 # temporary substitutions (environ[key] under `if key in environ`)
+
+    def bad(self, what):
+        return px.Unsupported(f"{self.name}: {what}")
+
+    def lit(self, v):
+        return px.coq_string_codes(v)
+
+    def sexpr(self, n):
+        """string-valued expression"""
+        txt = ast.unparse(n)
+        if txt in self.sub:
+            return self.sub[txt]
+        if txt in self.atoms and self.atoms[txt][0] == "str":
+            return self.atoms[txt][1]
+        if isinstance(n, ast.Name) and n.id in self.vars:
+            return n.id
+        if isinstance(n, ast.Constant) and isinstance(n.value, str):
+            return self.lit(n.value)
+        if isinstance(n, ast.JoinedStr):
+            parts = []
+            for v in n.values:
+                if isinstance(v, ast.Constant):
+                    parts.append(self.lit(v.value))
+                elif isinstance(v, ast.FormattedValue) and v.conversion == -1 and v.format_spec is None:
+                    parts.append(self.sexpr(v.value))
+                else:
+                    raise self.bad(f"f-string part {ast.unparse(v)!r}")
+            return "(" + " ++ ".join(parts) + ")"
+        if isinstance(n, ast.Call) and isinstance(n.func, ast.Attribute) and not n.keywords:
+            recv, meth, args = n.func.value, n.func.attr, n.args
+            if meth in ("upper", "lower", "strip") and not args:
+                return f"(str_{meth} {self.sexpr(recv)})"
+            if meth == "replace" and len(args) == 2 and isinstance(args[0], ast.Constant) and isinstance(args[0].value, str) \
+                    and args[0].value != "":
+                return f"(str_replace {self.sexpr(recv)} {self.sexpr(args[0])} {self.sexpr(args[1])})"
+            if meth == "get" and ast.unparse(recv) == self.state and len(args) == 2:
+                return f"(env_get_d {self.sexpr(args[0])} {self.sexpr(args[1])} {self.state})"
+        raise self.bad(f"unmapped string expression {txt!r}")
+
+    def bexpr(self, n):
+        txt = ast.unparse(n)
+        if txt in self.atoms and self.atoms[txt][0] == "bool":
+            return self.atoms[txt][1]
+        if isinstance(n, ast.BoolOp):
+            op = " && " if isinstance(n.op, ast.And) else " || "
+            return "(" + op.join(self.bexpr(v) for v in n.values) + ")"
+        if isinstance(n, ast.UnaryOp) and isinstance(n.op, ast.Not):
+            return f"(negb {self.bexpr(n.operand)})"
+        if isinstance(n, ast.Compare) and len(n.ops) == 1:
+            op, l, r = n.ops[0], n.left, n.comparators[0]
+            if isinstance(op, (ast.In, ast.NotIn)):
+                if isinstance(r, ast.Tuple):
+                    c = f"(mem_str {self.sexpr(l)} [" + "; ".join(self.sexpr(e) for e in r.elts) + "])"
+                elif isinstance(l, ast.Constant):
+                    c = f"(str_contains {self.sexpr(l)} {self.sexpr(r)})"
+                else:
+                    raise self.bad(f"membership {txt!r}")
+                return c if isinstance(op, ast.In) else f"(negb {c})"
+            if isinstance(op, ast.Eq):
+                return f"(list_eqb {self.sexpr(l)} {self.sexpr(r)})"
+        # truthiness of a str
+        try:
+            return f"(nonempty_str {self.sexpr(n)})"
+        except px.Unsupported:
+            raise self.bad(f"unmapped test {txt!r}") from None
+
+    def block(self, stmts, k):
+        if not stmts:
+            return k()
+        st, rest = stmts[0], stmts[1:]
+
+        def cont():
+            return self.block(rest, k)
+        if isinstance(st, ast.Continue):
+            return self.state
+        if isinstance(st, ast.Assign) and len(st.targets) == 1:
+            tg = st.targets[0]
+            if isinstance(tg, ast.Name):
+                self.vars.add(tg.id)
+                return f"(let {tg.id} := {self.sexpr(st.value)} in\n   {cont()})"
+            if isinstance(tg, ast.Subscript) and ast.unparse(tg.value) == self.state:
+                return f"(let {self.state} := env_set {self.sexpr(tg.slice)} {self.sexpr(st.value)} {self.state} in\n   {cont()})"
+            raise self.bad(f"assignment target {ast.unparse(tg)!r}")
+        if isinstance(st, ast.If):
+            t = st.test
+            if (isinstance(t, ast.Compare) and len(t.ops) == 1 and isinstance(t.ops[0], ast.In)
+                    and ast.unparse(t.comparators[0]) == self.state and not isinstance(t.left, ast.Constant)):
+                # `if key in environ:` - inside, environ[key] is the value found
+                key = self.sexpr(t.left)
+                item = f"{self.state}[{ast.unparse(t.left)}]"
+                self.sub[item] = "cur_"
+                a = self.block(st.body, cont)
+                del self.sub[item]
+                b = self.block(st.orelse, cont)
+                return f"(match env_get {key} {self.state} with\n   | Some cur_ => {a}\n   | None => {b} end)"
+            c = self.bexpr(t)
+            saved = set(self.vars)
+            a = self.block(st.body, cont)
+            self.vars = set(saved)
+            b = self.block(st.orelse, cont)
+            return f"(if {c}\n   then {a}\n   else {b})"
+        raise self.bad(f"statement {ast.unparse(st)[:80]!r}")
+
+
+def _stdlib_http_server():
+    """T1 from the running interpreter's http.server: the formats and default headers behind send_response /
+    send_header / end_headers (part of the bytes the development server writes)"""
+    import http.server as hs
+    try:
+        with open(hs.__file__, encoding="utf-8") as f:
+            mod = ast.parse(f.read())
+    except (OSError, SyntaxError) as e:
+        raise px.Unsupported(f"cannot read http.server source: {e}") from e
+    cls = px.find_class(mod, "BaseHTTPRequestHandler")
+    got = {n: [ast.unparse(x) for x in strip_doc(find_method(cls, n).body)] for n in
+           ("send_response", "send_response_only", "send_header", "end_headers")}
+    if got["send_response"] != ["self.log_request(code)", "self.send_response_only(code, message)",
+                                "self.send_header('Server', self.version_string())",
+                                "self.send_header('Date', self.date_time_string())"]:
+        raise px.Unsupported("http.server send_response changed: " + repr(got["send_response"]))
+    m1 = re.search(r"self\._headers_buffer\.append\(\(('[^']*') % \(self\.protocol_version, code, message\)\)\.encode\('latin-1', 'strict'\)\)",
+                   "\n".join(got["send_response_only"]))
+    m2 = re.search(r"self\._headers_buffer\.append\(\(('[^']*') % \(keyword, value\)\)\.encode\('latin-1', 'strict'\)\)",
+                   "\n".join(got["send_header"]))
+    m3 = re.search(r"self\._headers_buffer\.append\((b'[^']*')\)", "\n".join(got["end_headers"]))
+    if not (m1 and m2 and m3):
+        raise px.Unsupported("http.server status line / header / end_headers formats not recognised")
+    return ast.literal_eval(m1.group(1)), ast.literal_eval(m2.group(1)), ast.literal_eval(m3.group(1)), ["Server", "Date"]
+
+
 def _skel(body, holes, expected, what):
     got = ast.unparse(ast.fix_missing_locations(_Holes(holes).visit(ast.Module(body=body, type_ignores=[]))))
     if got != expected:
@@ -128,16 +269,7 @@ if status_sent is None:
     except ValueError:
         code_str, msg = (status_sent, '')
     code = int(code_str)
-    self.send_response(code, msg)
-    header_keys = set()
-    for key, value in headers_sent:
-        self.send_header(key, value)
-        header_keys.add(key.lower())
-    if H_cond:
-        chunk_response = True
-        self.send_header(H_te_k, H_te_v)
-    self.send_header(H_cn_k, H_cn_v)
-    self.end_headers()
+    H_plan
 assert isinstance(data, bytes), 'applications must write bytes'
 if data:
     if chunk_response:
@@ -165,27 +297,15 @@ if not self.client_address:
     self.client_address = ('<local>', 0)
 elif isinstance(self.client_address, str):
     self.client_address = (self.client_address, 0)
-if not request_url.scheme and request_url.netloc:
-    path_info = f'/{request_url.netloc}{request_url.path}'
-else:
-    path_info = request_url.path
+H_path_info
 path_info = unquote(path_info)
 environ: WSGIEnvironment = {'wsgi.version': (1, 0), 'wsgi.url_scheme': url_scheme, 'wsgi.input': self.rfile, 'wsgi.errors': sys.stderr, 'wsgi.multithread': self.server.multithread, 'wsgi.multiprocess': self.server.multiprocess, 'wsgi.run_once': False, 'werkzeug.socket': self.connection, 'SERVER_SOFTWARE': self.server_version, 'REQUEST_METHOD': self.command, 'SCRIPT_NAME': '', 'PATH_INFO': _wsgi_encoding_dance(path_info), 'QUERY_STRING': _wsgi_encoding_dance(request_url.query), 'REQUEST_URI': _wsgi_encoding_dance(self.path), 'RAW_URI': _wsgi_encoding_dance(self.path), 'REMOTE_ADDR': self.address_string(), 'REMOTE_PORT': self.port_integer(), 'SERVER_NAME': self.server.server_address[0], 'SERVER_PORT': str(self.server.server_address[1]), 'SERVER_PROTOCOL': self.request_version}
 for key, value in self.headers.items():
-    if H_skip in key:
-        continue
-    key = key.upper().replace(H_dash, H_under)
-    value = value.replace(H_fold, '')
-    if key not in H_exempt:
-        key = f'HTTP_{key}'
-        if key in environ:
-            value = f'{environ[key]},{value}'
-    environ[key] = value
-if environ.get('HTTP_TRANSFER_ENCODING', '').strip().lower() == H_chunked:
+    H_loop_body
+if H_chunked_test:
     environ['wsgi.input_terminated'] = True
     environ['wsgi.input'] = DechunkedInput(environ['wsgi.input'])
-if request_url.scheme and request_url.netloc:
-    environ['HTTP_HOST'] = request_url.netloc
+H_host
 try:
     peer_cert = self.connection.getpeercert(binary_form=True)
     if peer_cert is not None:
@@ -208,7 +328,12 @@ def _lit(node, typ, what):
 
 
 def gen() -> None:
-    """T1/T2: regenerate coq/C19/Gen.v from serving.py."""
+    """T1/T2: regenerate coq/C19/Gen.v from serving.py (and coq/C09/Gen.v from wsgi.py: C19/Limited.v is built over the
+    regenerated LimitedStream definitions)."""
+    try:
+        c09.gen()
+    except px.Unsupported as e:
+        raise px.Unsupported(f"C09/Gen.v (LimitedStream, used by C19/Limited.v): {e}") from e
     mod = px.load("serving.py")
     text = "(* GENERATED by tools/c19.py from serving.py on every run - do not edit *)\n"
     text += "From Wz Require Import C19.Base.\nOpen Scope N_scope.\n\n"
@@ -273,13 +398,42 @@ def gen() -> None:
     wbody = strip_doc(inner["write"].body)
     try:
         first = wbody[3]
-        cond_if = first.body[7]
-        holes = {"H_cond": cond_if.test, "H_te_k": cond_if.body[1].value.args[0], "H_te_v": cond_if.body[1].value.args[1],
-                 "H_cn_k": first.body[8].value.args[0], "H_cn_v": first.body[8].value.args[1],
+        start = next(i for i, x in enumerate(first.body) if ast.unparse(x) == "header_keys = set()" or
+                     ast.unparse(x) == "self.send_response(code, msg)")
+        span = first.body[start:]
+        cond_if = next(x for x in span if isinstance(x, ast.If) and any(ast.unparse(y) == "chunk_response = True" for y in x.body))
+        holes = {"H_cond": cond_if.test,
                  "H_crlf1": wbody[5].body[0].body[1].value.args[0], "H_crlf2": wbody[5].body[2].body[0].value.args[0]}
-    except (AttributeError, IndexError) as e:
+    except (AttributeError, IndexError, StopIteration) as e:
         raise px.Unsupported(f"run_wsgi.write: shape changed ({e})") from e
+    # what write() emits on its first call, in source order (everything from send_response to end_headers)
+    plan = []
+    for stt in span:
+        u = ast.unparse(stt)
+        if u == "header_keys = set()":
+            continue
+        if u == "self.send_response(code, msg)":
+            plan.append("PStatus")
+        elif isinstance(stt, ast.For) and ast.unparse(stt.iter) == "headers_sent" and [ast.unparse(x) for x in stt.body] == [
+                "self.send_header(key, value)", "header_keys.add(key.lower())"]:
+            plan.append("PAppHeaders")
+        elif stt is cond_if:
+            if len(stt.body) != 2 or stt.orelse or ast.unparse(stt.body[1].value.func) != "self.send_header":
+                raise px.Unsupported("run_wsgi.write: chunked branch changed")
+            te = (_lit(stt.body[1].value.args[0], str, "te"), _lit(stt.body[1].value.args[1], str, "te"))
+            plan.append(f"PIfChunked {px.coq_string_codes(te[0])} {px.coq_string_codes(te[1])}")
+        elif (isinstance(stt, ast.Expr) and isinstance(stt.value, ast.Call) and ast.unparse(stt.value.func) == "self.send_header"
+              and len(stt.value.args) == 2):
+            cn = (_lit(stt.value.args[0], str, "header"), _lit(stt.value.args[1], str, "header"))
+            plan.append(f"PHeader {px.coq_string_codes(cn[0])} {px.coq_string_codes(cn[1])}")
+        elif u == "self.end_headers()":
+            plan.append("PEnd")
+        else:
+            raise px.Unsupported(f"run_wsgi.write: statement not recognised in the emission plan: {u[:80]!r}")
+    first.body[start:] = [ast.Expr(ast.Name(id="H_plan", ctx=ast.Load()))]
+    cond_node = holes.pop("H_cond")
     _skel(wbody, holes, WRITE_SKELETON, "run_wsgi.write")
+    holes["H_cond"] = cond_node
     tr = T2x("run_wsgi.write", {"header_keys": ("strset", "header_keys"), "environ['REQUEST_METHOD']": ("str", "method"),
                                 "code": ("int", "code"), "self.protocol_version": ("str", "proto")})
     t, c = tr.expr(holes["H_cond"])
@@ -288,8 +442,7 @@ def gen() -> None:
     text += ("(* the chunked-framing decision of run_wsgi.write; header_keys = lower-cased response header names *)\n"
              "Definition chunk_condition_gen (header_keys : list str) (method : str) (code : Z) (proto : str) : bool :=\n  "
              f"{c}.\n")
-    for k, nm in (("H_te_k", "te_name"), ("H_te_v", "te_value"), ("H_cn_k", "conn_name"), ("H_cn_v", "conn_value")):
-        text += f"Definition {nm} : str := {px.coq_string_codes(_lit(holes[k], str, nm))}.\n"
+    text += "Definition head_plan : list hitem := [" + "; ".join(plan) + "].\n"
     for k, nm in (("H_crlf1", "chunk_sep1"), ("H_crlf2", "chunk_sep2")):
         text += f"Definition {nm} : list N := {px.coq_string_codes(_lit(holes[k], bytes, nm))}.\n"
     ebody = strip_doc(inner["execute"].body)
@@ -318,19 +471,45 @@ def gen() -> None:
     body = strip_doc(me.body)
     try:
         loop = body[6]
-        holes = {"H_skip": loop.body[0].test.left, "H_dash": loop.body[1].value.args[0], "H_under": loop.body[1].value.args[1],
-                 "H_fold": loop.body[2].value.args[0], "H_exempt": loop.body[3].test.comparators[0],
-                 "H_chunked": body[7].test.comparators[0]}
+        pi, chunk_if, host_if = body[3], body[7], body[8]
+        if not (isinstance(pi, ast.If) and isinstance(chunk_if, ast.If) and isinstance(host_if, ast.If) and isinstance(loop, ast.For)):
+            raise AttributeError("statement kinds")
     except (AttributeError, IndexError) as e:
         raise px.Unsupported(f"make_environ: shape changed ({e})") from e
-    _skel(body, holes, MAKE_ENVIRON_SKELETON, "make_environ")
-    ex_t = _lit(holes["H_exempt"], tuple, "exempt header tuple")
-    text += f"Definition env_skip_char : str := {px.coq_string_codes(_lit(holes['H_skip'], str, 'skip'))}.\n"
-    text += f"Definition env_dash : str := {px.coq_string_codes(_lit(holes['H_dash'], str, 'dash'))}.\n"
-    text += f"Definition env_under : str := {px.coq_string_codes(_lit(holes['H_under'], str, 'under'))}.\n"
-    text += f"Definition env_fold : str := {px.coq_string_codes(_lit(holes['H_fold'], str, 'fold'))}.\n"
-    text += "Definition env_exempt : list str := [" + "; ".join(px.coq_string_codes(x) for x in ex_t) + "].\n"
-    text += f"Definition env_chunked : str := {px.coq_string_codes(_lit(holes['H_chunked'], str, 'chunked'))}.\n"
+    # T2: the header loop body, the path_info choice, the chunked test and the absolute-form Host override, statement by statement
+    if not (isinstance(loop, ast.For) and ast.unparse(loop.target) in ("key, value", "(key, value)") and ast.unparse(loop.iter) == "self.headers.items()"
+            and not loop.orelse):
+        raise px.Unsupported("make_environ: header loop header changed")
+    t3 = T3("make_environ header loop", {"key", "value"})
+    text += ("(* the body of `for key, value in self.headers.items():` as a function of the environ built so far *)\n"
+             "Definition env_header_step_gen (key value : str) (environ : list (str * str)) : list (str * str) :=\n  "
+             f"{t3.block(loop.body, lambda: 'environ')}.\n")
+    url_atoms = {"request_url.scheme": ("str", "scheme"), "request_url.netloc": ("str", "netloc"),
+                 "request_url.path": ("str", "path")}
+    t3 = T3("make_environ path_info", set(), url_atoms)
+    pi = body[3]
+    if not (isinstance(pi, ast.If) and ast.unparse(body[4]) == "path_info = unquote(path_info)"):
+        raise px.Unsupported("make_environ: path_info statements moved")
+    text += ("Definition path_info_gen (scheme netloc path : str) : str :=\n  "
+             f"{t3.block([pi], lambda: 'path_info')}.\n")
+    t3 = T3("make_environ chunked test", set())
+    text += f"Definition chunked_request_gen (environ : list (str * str)) : bool :=\n  {t3.bexpr(body[7].test)}.\n"
+    t3 = T3("make_environ absolute-form Host", set(), url_atoms)
+    text += ("Definition host_override_gen (scheme netloc : str) (environ : list (str * str)) : list (str * str) :=\n  "
+             f"{t3.block([body[8]], lambda: 'environ')}.\n\n")
+    # the rest of make_environ is pinned as a skeleton with the translated statements as placeholders
+    body[3] = ast.Expr(ast.Name(id="H_path_info", ctx=ast.Load()))
+    loop.body = [ast.Expr(ast.Name(id="H_loop_body", ctx=ast.Load()))]
+    chunk_if.test = ast.Name(id="H_chunked_test", ctx=ast.Load())
+    body[8] = ast.Expr(ast.Name(id="H_host", ctx=ast.Load()))
+    _skel(body, {}, MAKE_ENVIRON_SKELETON, "make_environ")
+    # T1: the http.server formats behind send_response / send_header / end_headers
+    sl, hf, eh, defaults = _stdlib_http_server()
+    text += f"(* http.server (running interpreter): send_response_only / send_header / end_headers / send_response *)\n"
+    text += f"Definition status_line_fmt : str := {px.coq_string_codes(sl)}.\n"
+    text += f"Definition header_fmt : str := {px.coq_string_codes(hf)}.\n"
+    text += f"Definition end_headers_bytes : list N := {px.coq_string_codes(eh)}.\n"
+    text += "Definition default_headers : list str := [" + "; ".join(px.coq_string_codes(x) for x in defaults) + "].\n"
     px.write_if_changed(os.path.join(COQ, "C19", "Gen.v"), text)
 
 
@@ -532,6 +711,62 @@ def impl_dechunk(wire: bytes, ops, rng, fails: list, stream=None):
         fails.append(("cursor", f"{len(wire) - rfile.tell()} bytes left after the final chunk, expected {tail_len}"))
     if err == "OS" and complete:
         fails.append(("wellframed-rejected", f"OSError on a well-framed body after {got!r}"))
+    return "|".join(res), got, err
+
+
+def impl_limited(wire: bytes, mx: int, ops, fails: list, stream=None):
+    """LimitedStream(DechunkedInput(rfile), mx, is_max=True), as get_input_stream builds it when the request class
+    sets max_content_length; results until the first exception + the property as an oracle"""
+    from werkzeug.exceptions import ClientDisconnected, RequestEntityTooLarge
+    from werkzeug.serving import DechunkedInput
+    from werkzeug.wsgi import LimitedStream
+    if stream is None:
+        stream = LimitedStream(DechunkedInput(io.BufferedReader(io.BytesIO(wire))), mx, is_max=True)
+    res, got, err = [], b"", None
+    clean_end = False
+    for o in ops:
+        f = o.split(":")
+        try:
+            if f[0] == "r":
+                buf = bytearray(int(f[1]))
+                k = stream.readinto(buf)
+                if len(buf) != int(f[1]) or not isinstance(k, int) or not 0 <= k <= len(buf):
+                    fails.append(("garbage-delivered", f"readinto returned {k!r} for a buffer of {f[1]} (now {len(buf)})"))
+                    err = "BadReadinto"
+                    break
+                d = bytes(buf[:k])
+                if d == b"":
+                    clean_end = True
+            else:
+                d = stream.readall()
+                clean_end = True
+        except ClientDisconnected:
+            err = "CD"
+            break
+        except RequestEntityTooLarge:
+            err = "413"
+            break
+        except ImplTimeout:
+            raise
+        except Exception as e:  # noqa: BLE001
+            err = type(e).__name__
+            break
+        got += d
+        res.append(hexs(d))
+    if err:
+        res.append("!" + err)
+    deliverable, complete, _ = ref_dechunk(wire)
+    if err not in (None, "CD", "413", "BadReadinto"):
+        fails.append(("unrelated-exception", f"reading the de-chunked body through LimitedStream raised {err}"))
+    if not deliverable.startswith(got) or len(got) > mx:
+        fails.append(("garbage-delivered", f"delivered {got!r}; genuine chunk data {deliverable!r}, maximum {mx}"))
+    if clean_end and err is None and not complete:
+        fails.append(("malformed-accepted-behind-max", f"ill-framed chunked body read to a clean end of stream through "
+                      f"LimitedStream(is_max) (delivered {got!r}); the I/O error of the de-chunking stream was swallowed"))
+    if err == "413" and len(got) < mx and stream._pos < mx:
+        fails.append(("413-unjustified", f"RequestEntityTooLarge after {len(got)} of at most {mx} bytes"))
+    if err == "CD" and complete and len(deliverable) <= mx:
+        fails.append(("wellframed-rejected", f"ClientDisconnected on a well-framed body after {got!r}"))
     return "|".join(res), got, err
 
 
@@ -757,6 +992,32 @@ def run(chk: Check) -> None:
     for _ in range(9000 if quick else 120000):
         do_dc(gen_malformed(rng), gen_dops(rng), "malformed")
 
+    # ------------------------------------------------ A2. behind LimitedStream(is_max=True) (C19 x C09)
+    def do_ldc(wire, mx, ops, tag):
+        fails: list = []
+        try:
+            r, got, err = with_timeout(impl_limited, 5, wire, mx, ops, fails)
+        except ImplTimeout:
+            r, got, err = "!TIMEOUT", b"", "TIMEOUT"
+            fails.append(("hang", "LimitedStream over DechunkedInput did not return within 5 s"))
+        case = {"kind": "ldc", "wire": wire.hex(), "max": mx, "ops": ops}
+        for key, what in fails[:2]:
+            chk.fail(key, what, case)
+        lines.append(f"ldc {hexs(wire)} {mx} {';'.join(ops)}")
+        impl_out.append(r)
+        cases.append(case)
+        chk.case(("ldc", wire, mx, tuple(ops)), nontrivial=len(wire) > 0)
+        chk.count("ldc:" + tag + (":" + err if err else ""))
+    for w, o in [(b"5\r\nab", ["r:2", "a"]), (b"5\r\nab", ["a"]), (b"g\r\n", ["a"]), (b"2\r\nabXX", ["r:5", "r:5"]),
+                 (b"2\r\nab\r\n", ["a"]), (b"2\r\nab\r\n0\r\n\r\n", ["a", "r:1"])]:
+        do_ldc(w, 100, o, "corpus")
+    for _ in range(2500 if quick else 40000):
+        w = gen_chunked(rng)[0] if rng.random() < 0.4 else gen_malformed(rng)
+        body_len = len(ref_dechunk(w)[0])
+        mx = rng.choice([100, 100, 1000, body_len + 1, max(0, body_len - 1), body_len, 3])
+        ops = [o for o in gen_dops(rng) if o != "l"] or ["a"]
+        do_ldc(w, mx, ops, "random")
+
     # ------------------------------------------------ B. the whole handler, in process
     n_e2e = 3000 if quick else 40000
     for i in range(n_e2e):
@@ -765,7 +1026,9 @@ def run(chk: Check) -> None:
         dops = gen_dops(rng)
         seen: dict = {}
 
-        def app(environ, start_response, rq=rq, rs=rs, dops=dops, seen=seen):
+        via_request = rng.choice([0, 0, 1000, 1000, 7]) if rq["body_kind"].startswith("chunked") else 0
+
+        def app(environ, start_response, rq=rq, rs=rs, dops=dops, seen=seen, via_request=via_request):
             seen["environ"] = {k: v for k, v in environ.items() if isinstance(v, str)}
             seen["terminated"] = environ.get("wsgi.input_terminated")
             inp = environ["wsgi.input"]
@@ -779,6 +1042,22 @@ def run(chk: Check) -> None:
                         break
                     got += d
                 seen["body"] = got
+            elif seen["input_type"] == "DechunkedInput" and via_request:
+                # the usual werkzeug way: Request(environ) with max_content_length -> LimitedStream(is_max) over the stream
+                from werkzeug.wrappers import Request
+                from werkzeug.wsgi import LimitedStream
+                req = type("R", (Request,), {"max_content_length": via_request})(environ)
+                st = req.stream
+                seen["via"] = type(st).__name__
+                if isinstance(st, LimitedStream):
+                    fails = []
+                    lops = [o for o in dops if o != "l"] or ["a"]
+                    r, got, err = impl_limited(rq["wire_body"], via_request, lops, fails, stream=st)
+                    seen["ldc"] = (r, lops)
+                    seen["dc_fails"] = fails
+                    seen["body"] = got
+                    seen["dc_err"] = err
+                    seen["drained"] = err is None and lops[-1] == "a"
             elif seen["input_type"] == "DechunkedInput":
                 fails: list = []
                 r, got, err = impl_dechunk(rq["wire_body"], dops, rng, fails, stream=inp)
@@ -827,6 +1106,18 @@ def run(chk: Check) -> None:
                 bad("path-info", f"PATH_INFO {env.get('PATH_INFO')!r} is not the percent-decoded path {want!r}")
             if env.get("QUERY_STRING") != q:
                 bad("query-string", f"QUERY_STRING {env.get('QUERY_STRING')!r} != {q!r}")
+        mabs = re.match(r"(?i)(https?)://([^/?#]*)(/[^?#]*)?(?:\?([^#]*))?", tgt)
+        if mabs and "#" not in tgt:
+            # absolute-form: the path after the authority, percent-decoded; the query; Host from the target
+            want = unquote_to_bytes(mabs.group(3) or "")
+            try:
+                want.decode("utf-8")
+                if env.get("PATH_INFO", "").encode("latin1") != want:
+                    bad("path-info", f"PATH_INFO {env.get('PATH_INFO')!r} is not the percent-decoded path {want!r} of the absolute-form target")
+            except UnicodeDecodeError:
+                pass
+            if env.get("QUERY_STRING") != (mabs.group(4) or ""):
+                bad("query-string", f"QUERY_STRING {env.get('QUERY_STRING')!r} != {mabs.group(4) or ''!r}")
         if env.get("REQUEST_URI") != tgt:
             bad("request-uri", f"REQUEST_URI {env.get('REQUEST_URI')!r} != {tgt!r}")
         by_name: dict = {}
@@ -848,6 +1139,8 @@ def run(chk: Check) -> None:
                                      "(names with an underscore must be dropped: they would alias dashed names)")
         if rq["body_kind"] in ("cl", "chunked") and seen.get("body") is not None:
             drained = rq["body_kind"] == "cl" or (dops and dops[-1] == "a" and not seen.get("dc_err"))
+            if "ldc" in seen:
+                drained = seen["drained"] and len(rq["body"]) < via_request
             if not rq["body"].startswith(seen["body"]) or (drained and seen["body"] != rq["body"]):
                 bad("body", f"application read {seen['body']!r}, the client sent {rq['body']!r}")
         if rq["body_kind"].startswith("chunked"):
@@ -895,6 +1188,11 @@ def run(chk: Check) -> None:
         impl_out.append(f"path={hx(env.get('PATH_INFO', ''))} query={hx(env.get('QUERY_STRING', ''))} uri={hx(env.get('REQUEST_URI', ''))} "
                         f"chunked={int(seen['input_type'] == 'DechunkedInput')} hdrs={pairs_hex(hdr_env)}")
         cases.append(case)
+        if "ldc" in seen:
+            lines.append(f"ldc {hexs(rq['wire_body'])} {via_request} {';'.join(seen['ldc'][1])}")
+            impl_out.append(seen["ldc"][0])
+            cases.append(case)
+            chk.count("e2e:via-Request-max_content_length")
         if "dc" in seen:
             lines.append(f"dc {hexs(rq['wire_body'])} {';'.join(dops)}")
             impl_out.append("D" + seen["dc"])
@@ -979,7 +1277,7 @@ def main(chk: Check) -> None:
     except px.Unsupported as e:
         chk.broken("translator", "C19/Gen.v", str(e))
     chk.forbidden_scan()
-    if chk.coq_make(["C19/Proofs.vo", "C19/Extract.vo"]):
+    if chk.coq_make(["C19/Proofs.vo", "C19/LimitedProofs.vo", "C19/Extract.vo"]):
         chk.audit_props("C19/Props.v")
     else:
         chk.cov["obligations"] += 1
